@@ -153,19 +153,36 @@ def proofs(pid, mod):
 
 
 # ------------------------------------------------------------------ steps 2-7
+def harness_dir():
+    """/verif/harness for /repo itself; a private copy when VERIF_REPO points at a scratch tree
+    (so that concurrent runs never build against each other's go.mod)."""
+    if os.path.realpath(REPO) == "/repo":
+        return os.path.join(V, "harness"), os.path.join(W, "bin")
+    h = hashlib.sha1(os.path.realpath(REPO).encode()).hexdigest()[:8]
+    d = os.path.join(W, "alt", h, "harness")
+    os.makedirs(d, exist_ok=True)
+    subprocess.run(["rsync", "-a", "--delete", "--exclude", "go.mod", "--exclude", "go.sum",
+                    os.path.join(V, "harness") + "/", d + "/"], check=True)
+    b = os.path.join(W, "alt", h, "bin")
+    os.makedirs(b, exist_ok=True)
+    return d, b
+
+
 def build_harness(pkg):
-    r = run([os.path.join(V, "tools", "mkgomod.sh")], env=goenv())
+    hd, bd = harness_dir()
+    e = goenv(); e["VERIF_HARNESS_DIR"] = hd
+    r = run([os.path.join(V, "tools", "mkgomod.sh")], env=e)
     if r.returncode != 0:
         return "mkgomod failed: " + r.stdout
-    out = os.path.join(W, "bin", pkg + ".test")
-    r = run(["go", "test", "-c", "-tags", "verif", "-o", out, "./" + pkg], cwd=os.path.join(V, "harness"), env=goenv())
+    out = os.path.join(bd, pkg + ".test")
+    r = run(["go", "test", "-c", "-tags", "verif", "-o", out, "./" + pkg], cwd=hd, env=goenv())
     if r.returncode != 0:
         return "go build failed:\n" + r.stdout[-4000:]
     return None
 
 
 def run_impl(part, cases, tag):
-    d = os.path.join(W, "run", tag)
+    d = os.path.join(W, "run", tag + ("" if os.path.realpath(REPO) == "/repo" else "-alt" + hashlib.sha1(os.path.realpath(REPO).encode()).hexdigest()[:8]))
     os.makedirs(d, exist_ok=True)
     fin, fout = os.path.join(d, "cases.jsonl"), os.path.join(d, "impl.jsonl")
     with open(fin, "w") as fh:
@@ -174,8 +191,9 @@ def run_impl(part, cases, tag):
     if os.path.exists(fout):
         os.remove(fout)
     e = goenv(); e["VERIF_IN"] = fin; e["VERIF_OUT"] = fout
-    r = run([os.path.join(W, "bin", part.go_pkg + ".test"), "-test.run", "^" + part.go_test + "$", "-test.timeout", "100m"],
-            env=e, cwd=os.path.join(V, "harness", part.go_pkg))
+    hd, bd = harness_dir()
+    r = run([os.path.join(bd, part.go_pkg + ".test"), "-test.run", "^" + part.go_test + "$", "-test.timeout", "100m"],
+            env=e, cwd=os.path.join(hd, part.go_pkg))
     if r.returncode != 0 or not os.path.exists(fout):
         raise RuntimeError("implementation driver failed:\n" + r.stdout[-4000:])
     impl = {}
@@ -186,7 +204,7 @@ def run_impl(part, cases, tag):
 
 
 def run_model(part, impl_file, tag):
-    d = os.path.join(W, "run", tag)
+    d = os.path.dirname(impl_file)
     fout = os.path.join(d, "model.jsonl")
     with open(impl_file) as fin, open(fout, "w") as fo:
         r = subprocess.run([os.path.join(W, "bin", "model_" + part.component)], stdin=fin, stdout=fo, stderr=subprocess.PIPE, text=True)
@@ -384,7 +402,8 @@ def main():
         "violations": len([l for l in out_lines if l.startswith("VIOLATION")]),
     }
     if not args.replay:
-        json.dump(ev, open(os.path.join(V, "evidence", pid + ".json"), "w"), indent=1)
+        evdir = os.path.join(V, "evidence") if os.path.realpath(REPO) == "/repo" else harness_dir()[1]
+        json.dump(ev, open(os.path.join(evdir, pid + ".json"), "w"), indent=1)
     for l in out_lines:
         print(l)
     if args.replay and violations:
